@@ -207,6 +207,18 @@ def main():
 	dst := make([]byte, 256); src := make([]byte, 256)
 	noFault(t, "round keys at the end of a page", func() { %s((*uint32)(unsafe.Pointer(&rk[0])), &dst[0], &src[0]) })''' % (keylit, r if r.startswith('cryptoBlockAsm') else 'cryptoBlockAsm')
             return test_src(body)
+        if r in ('sealAsm', 'Seal') and (cls == 'oob' or cls.startswith('write')):
+            # a store outside the destination: dst ends exactly at the end of a page (capacity == needed), appended in place
+            cases = f['cases'][:10]
+            body = '''	b, _ := NewCipher(%s)
+	for _, c := range [][4]int{%s} {
+		a, err := b.(interface{ NewGCM(int, int) (cipher.AEAD, error) }).NewGCM(c[0], c[3])
+		if err != nil { t.Fatal(err) }
+		buf := guarded(c[1] + c[3])
+		pt := make([]byte, c[1]); aad := make([]byte, c[2]); nonce := make([]byte, c[0])
+		noFault(t, "Seal appending into a destination that ends at a page boundary", func() { a.Seal(buf[:0], nonce, pt, aad) })
+	}''' % (keylit, ', '.join('{%d, %d, %d, %d}' % (c.get('nonce', 12), c.get('pt', 0), c.get('aad', 0), c.get('tag', 16)) for c in cases))
+            return test_src(body)
         if r in ('sealAsm', 'Seal') and ('pt' in cls or 'object' in cls):
             pl = case.get('pt', 5)
             body = '''	b, _ := NewCipher(%s)
